@@ -61,21 +61,48 @@ theorem periodic_spacing (s h p : Int) (i : Nat) (hi : i < arangeLen s h p) :
 example : periodicReleases 5 36 10 = [5, 15, 25, 35] := by decide
 example : periodicReleases 5 35 10 = [5, 15, 25] := by decide
 
-/-- FINDING C19-L1.  `WorkloadLoader` passes `flags.loop_timeout` (an `int`,
-modelled by `horizon = none`) to `get_release_times`: every periodic policy it
-builds (`n = -1`) fails with `AttributeError` instead of releasing anything. -/
-theorem periodic_via_loader_counterexample (p : Policy) (d : Draws)
-    (hk : p.kind = .periodic) (hn : p.n ≠ 0) :
-    getReleaseTimes p none d = .error "AttributeError" := by
-  simp [getReleaseTimes, hk, hn]
+/-- Through the loader (after fix b2eb371, formerly finding C19-L1): the horizon
+`WorkloadLoader` passes is `EventTime(flags.loop_timeout)`, so a periodic policy
+releases `np.arange(start, loop_timeout, period)`. -/
+theorem periodic_via_loader (p : Policy) (f : Flags) (d : Draws)
+    (hk : p.kind = .periodic) (hn : p.n ≠ 0) (hp : p.period ≠ 0) :
+    getReleaseTimes p (loaderHorizon f) d = .ok (periodicReleases p.start f.loopTimeout p.period) := by
+  simp [getReleaseTimes, loaderHorizon, hk, hn, hp]
 
-/-- …and that is what the loader model returns on a one-node periodic description. -/
-theorem periodic_via_loader_counterexample_concrete :
-    (generateAll [{ name := "P", loading := [], exec := [{ res := none, batch := 1, runtime := 100 }] }] {}
-      { name := "G", policy := { kind := .periodic, period := 100, n := -1, start := 0 }, variance := (0, 0)
-        jobs := [{ name := "a", profile := 0, slo := -1, cond := false, term := false, prob := 1000 }]
-        children := [[]] } none .none { tape := [], nextId := 0 }).toOption = none := by
-  decide
+/-- …that is: every period from the start until `--loop_timeout`, none missing. -/
+theorem periodic_via_loader_complete (p : Policy) (f : Flags) (d : Draws) (rel : List Int)
+    (hk : p.kind = .periodic) (hn : p.n ≠ 0) (hp : 0 < p.period)
+    (h : getReleaseTimes p (loaderHorizon f) d = .ok rel) (x : Int) :
+    x ∈ rel ↔ ∃ i : Nat, x = p.start + (i : Int) * p.period ∧ x < f.loopTimeout := by
+  rw [periodic_via_loader p f d hk hn (by omega)] at h
+  simp only [Except.ok.injEq] at h
+  rw [← h]
+  exact periodic_complete p.start f.loopTimeout p.period hp x
+
+/-- Every release of a policy becomes one task graph, in order: `generate_task_graphs`
+turns release `k` into the fresh copy `name@k` (timestamp `k`) released at that time. -/
+theorem generated_graphs_follow_releases (insts : List ProfileInst) (f : Flags) (jg : JobGraph)
+    (h : Option Int) (d : Draws) (gs gs' : GenState) (tgs : List TaskGraph) (ls : LoopState)
+    (hg : generateAll insts f jg h d gs = .ok (gs', tgs, ls)) :
+    ∃ rel, getReleaseTimes jg.policy h d = .ok rel ∧ tgs.length = rel.length ∧
+      ∀ k, k < rel.length → ∃ dl fid,
+        tgs[k]? = some (instantiate jg s!"{jg.name}@{((0 + k : Nat) : Int)}" ((0 + k : Nat) : Int) (rel.getD k 0) dl fid) := by
+  unfold generateAll at hg
+  cases hr : getReleaseTimes jg.policy h d with
+  | error e => simp [hr] at hg
+  | ok rel =>
+    simp only [hr] at hg
+    cases hl : generateList insts f jg 0 rel gs with
+    | error e => simp [hl] at hg
+    | ok v =>
+      obtain ⟨g1, l⟩ := v
+      simp only [hl, Except.ok.injEq, Prod.mk.injEq] at hg
+      obtain ⟨_, rfl, _⟩ := hg
+      exact ⟨rel, rfl, generateList_spec insts f jg rel 0 gs g1 l hl⟩
+
+-- period 100 from 0 with --loop_timeout=250: released at 0, 100, 200
+example : getReleaseTimes { kind := .periodic, period := 100, n := -1, start := 0 }
+    (loaderHorizon { loopTimeout := 250 }) .none = .ok [0, 100, 200] := by decide
 
 /-! ## Poisson / Gamma: N non-decreasing releases from the start -/
 
@@ -322,38 +349,40 @@ example : fuzz 100 50 50 0 20 0 = 120 := by decide
 
 /-! ## the loader: SLOs -/
 
-/-- FINDING C19-L2.  Second node without an SLO of its own: it is loaded with
-the first node's SLO (the description says "none"). -/
-theorem slo_leak_counterexample :
+/-- Every loaded job carries the override when `--override_slo` is active, else
+its own described SLO, else none (after fix 8d52357, formerly finding C19-L2). -/
+theorem slo_faithful (origNames : List String) (pmap : List Nat) (nodes : List NodeD)
+    (slo : Int) (st st' : LState) (jobs : List Job)
+    (h : loadJobs origNames pmap nodes slo st [] = .ok (st', jobs)) :
+    jobs.map (·.slo) = nodes.map (fun nd => if slo = -1 then nd.slo.getD (-1) else slo) := by
+  have := loadJobs_slo origNames pmap nodes slo st st' [] jobs h
+  simp only [List.map_nil, List.nil_append] at this
+  rw [this]
+  apply List.map_congr_left
+  intro nd _
+  unfold jobSlo
+  cases nd.slo <;> rfl
+
+/-- …and its described name, in order. -/
+theorem job_names_faithful (origNames : List String) (pmap : List Nat) (nodes : List NodeD)
+    (slo : Int) (st st' : LState) (jobs : List Job)
+    (h : loadJobs origNames pmap nodes slo st [] = .ok (st', jobs)) :
+    jobs.map (·.name) = nodes.map (·.name) := by
+  simpa using loadJobs_names origNames pmap nodes slo st st' [] jobs h
+
+-- the two former counterexamples: `b` without SLO stays without, `b` with 900 keeps 900
+example :
     (loadJobs ["P"] [0]
       [{ name := "a", profile := some "P", slo := some 500, cond := false, term := false, prob := none, children := some ["b"] },
        { name := "b", profile := some "P", slo := none, cond := false, term := false, prob := none, children := none }]
-      (-1) { insts := [], copies := [] } []).toOption.map (fun r => r.2.map (·.slo)) = some [500, 500] := by
+      (-1) { insts := [], copies := [] } []).toOption.map (fun r => r.2.map (·.slo)) = some [500, -1] := by
   decide
-
-/-- …and a node with its own SLO loses it. -/
-theorem slo_leak_counterexample_own :
+example :
     (loadJobs ["P"] [0]
       [{ name := "a", profile := some "P", slo := some 500, cond := false, term := false, prob := none, children := some ["b"] },
        { name := "b", profile := some "P", slo := some 900, cond := false, term := false, prob := none, children := none }]
-      (-1) { insts := [], copies := [] } []).toOption.map (fun r => r.2.map (·.slo)) = some [500, 500] := by
+      (-1) { insts := [], copies := [] } []).toOption.map (fun r => r.2.map (·.slo)) = some [500, 900] := by
   decide
-
-/-- Full statement (fails, see the counterexamples): every loaded job carries its
-own described SLO, `-1` if it has none, or the override.  Proved for the two
-classes that exclude the leak: an active `--override_slo`, or no node SLOs. -/
-theorem slo_faithful_partial (origNames : List String) (pmap : List Nat) (nodes : List NodeD)
-    (slo : Int) (st st' : LState) (jobs : List Job)
-    (hcls : slo ≠ -1 ∨ ∀ nd ∈ nodes, nd.slo = none)
-    (h : loadJobs origNames pmap nodes slo st [] = .ok (st', jobs)) :
-    ∀ j ∈ jobs, j.slo = slo := by
-  by_cases hs : slo = -1
-  · subst hs
-    rcases hcls with hc | hc
-    · exact absurd rfl hc
-    · exact loadJobs_slo_none origNames pmap nodes hc st st' [] jobs (by simp) h
-  · exact loadJobs_slo_override origNames pmap nodes slo hs st st' [] jobs (by simp) h
-
 example :
     (loadJobs ["P"] [0]
       [{ name := "a", profile := some "P", slo := some 500, cond := false, term := false, prob := none, children := none }]
@@ -362,15 +391,29 @@ example :
 
 /-! ## the loader: `--override_num_invocation` -/
 
-/-- FINDING C19-L3.  The override reaches the `fixed` policy only: a Poisson
-description with 2 invocations and `--override_num_invocation=4` keeps 2. -/
-theorem override_n_ignored_counterexample :
+/-- An active `--override_num_invocation` is the invocation count of every
+policy that has one (after fix d64eefe, formerly finding C19-L3). -/
+theorem override_n_applies (g : GraphD) (f : Flags) (p : Policy)
+    (h : createPolicy g f = .ok p) (hf : 0 < f.n) (hk : p.kind ≠ .periodic) : p.n = f.n := by
+  unfold createPolicy mkClosedLoop at h
+  simp only [hf, if_true] at h
+  repeat' split at h
+  all_goals first
+    | (simp at h; done)
+    | (simp only [pure, Except.pure, Except.ok.injEq] at h
+       subst h
+       first | rfl | (simp at hk))
+
+example :
     ((createPolicy { name := some "G", nodes := some [], policy := some "poisson", period := none,
                      invocations := some 2, concurrency := none, start := none, rate := true,
-                     coefficient := false, variance := none } { n := 4 }).toOption.map (·.n)) = some 2 ∧
-    ((createPolicy { name := some "G", nodes := some [], policy := some "fixed", period := some 10,
-                     invocations := some 2, concurrency := none, start := none, rate := false,
-                     coefficient := false, variance := none } { n := 4 }).toOption.map (·.n)) = some 4 := by
+                     coefficient := false, variance := none } { n := 4 }).toOption.map (·.n)) = some 4 ∧
+    ((createPolicy { name := some "G", nodes := some [], policy := some "closed_loop", period := none,
+                     invocations := some 2, concurrency := some 3, start := none, rate := false,
+                     coefficient := false, variance := none } { n := 4 }).toOption.map (·.n)) = some 4 ∧
+    ((createPolicy { name := some "G", nodes := some [], policy := some "gamma", period := none,
+                     invocations := none, concurrency := none, start := none, rate := true,
+                     coefficient := true, variance := none } { n := 4 }).toOption.map (·.n)) = some 4 := by
   decide
 
 /-! ## the loader: release policy parameters come from the description (or the overrides) -/
@@ -388,11 +431,11 @@ theorem fixed_policy_from_description (g : GraphD) (f : Flags) (p n : Int)
   by_cases h1 : f.period > 0 <;> by_cases h2 : f.n > 0 <;> simp [h1, h2] <;> rfl
 
 /-- A `closed_loop` description yields the CLOSED_LOOP policy with the described
-concurrency, invocations and start (zero is refused). -/
+concurrency, invocations and start (zero is refused); without an invocation override. -/
 theorem closed_loop_policy_from_description (g : GraphD) (f : Flags) (c n : Int)
     (hk : g.policy = some "closed_loop") (hc : g.concurrency = some c) (hn : g.invocations = some n)
     (hc0 : c ≠ 0) (hn0 : n ≠ 0) :
-    createPolicy g f = .ok { kind := .closedLoop, n := n, conc := c, start := g.start.getD 0 } := by
+    createPolicy g { f with n := 0 } = .ok { kind := .closedLoop, n := n, conc := c, start := g.start.getD 0 } := by
   unfold createPolicy
   simp [hk, hc, hn, mkClosedLoop, hc0, hn0]
 
